@@ -305,10 +305,12 @@ func NewContext(maxParams uint16) *RequestContext {
 // Loop fn for every k/v in Keys
 func (ctx *RequestContext) ForEachKey(fn func(k string, v interface{})) {
 	ctx.mu.RLock()
+	// deferred: fn is caller code; if it panics (and a recovery middleware catches it) the
+	// lock must not stay held in a context that goes back to the pool
+	defer ctx.mu.RUnlock()
 	for key, val := range ctx.Keys {
 		fn(key, val)
 	}
-	ctx.mu.RUnlock()
 }
 
 func (ctx *RequestContext) SetConn(c network.Conn) {
